@@ -3,6 +3,9 @@ package sim
 import (
 	"sort"
 
+	"github.com/sarchlab/akita/v5/mem/memcontrolprotocol"
+	"github.com/sarchlab/akita/v5/messaging"
+
 	"verif/harness/lib"
 	"verif/harness/simx"
 )
@@ -80,6 +83,52 @@ func C03Scenarios(c *lib.Ctx, yield func(name string, run func()) bool) {
 		})
 		if !ok {
 			return
+		}
+	}
+	// control traffic: several dirty lines, then Drain / Flush (unfiltered, or
+	// filtered by two or three line addresses in either order) / Enable, so that
+	// any per-request collection built from the filter has several keys
+	flushLines := []uint64{0x0, 0x40, 0x80, 0x1040}
+	var dirty []simx.MemOp
+	for i, l := range flushLines {
+		d := make([]byte, 4)
+		for k := range d {
+			d[k] = byte(0x21 + 0x10*i + k)
+		}
+		dirty = append(dirty, simx.MemOp{Write: true, Addr: l + 8, Size: 4, Data: d})
+	}
+	filters := [][]uint64{nil, {0x0, 0x40}, {0x40, 0x0}, {0x1040, 0x80, 0x0}, {0x0, 0x40, 0x80, 0x1040}}
+	for _, st := range [][]string{{"wb"}, {"wb", "wb"}} {
+		for _, f := range filters {
+			cfg := simx.ChainCfg{Stages: st, Memory: "ideal", NumMem: 1, PortBuf: 4, Lat: 1, MSHR: 2, Eager: true}
+			f := f
+			if !yield("chain-flush", func() {
+				ch := simx.BuildChain(cfg, cloneOps(dirty))
+				defer ch.Env.Close()
+				var steps []simx.CtrlStep
+				var targets []messaging.RemotePort
+				for i, c := range ch.WB {
+					targets = append(targets, c.GetPortByName("Control").AsRemote())
+					steps = append(steps,
+						simx.CtrlStep{Target: i, Cmd: int(memcontrolprotocol.CmdDrain)},
+						simx.CtrlStep{Target: i, Cmd: int(memcontrolprotocol.CmdFlush), Addresses: f})
+				}
+				for i := len(ch.WB) - 1; i >= 0; i-- {
+					steps = append(steps, simx.CtrlStep{Target: i, Cmd: int(memcontrolprotocol.CmdEnable)})
+				}
+				ctrl := simx.NewController(ch.Env, "Ctrl", steps, targets, 2)
+				ch.Conn.PlugIn(ctrl.GetPortByName("Ctrl"))
+				for _, c := range ch.WB {
+					ch.Conn.PlugIn(c.GetPortByName("Control"))
+				}
+				ch.Driver.TickLater()
+				ch.Env.Run(400000)
+				ctrl.Start()
+				ch.Env.Run(400000)
+				contribute(ch.Env)
+			}) {
+				return
+			}
 		}
 	}
 	j := 0
